@@ -6,7 +6,7 @@ From FlacUpdIo Require GenUpd Update Update_proofs Update_cond.
 From FlacCodec Require Ast Stream Spec Wf.
 From FlacWriters Require Import Params Params_proofs Finalize Writers Encoder_proofs C09_proofs Bytes_proofs Writers_proofs Cross_proofs.
 From FlacReaders Require Readers Spec Seek.
-From FlacE2E Require Bridge E2E Success ReadBridge ReadersE2E Transfer ByteE2E.
+From FlacE2E Require Bridge E2E Success ReadBridge ReadersE2E Transfer ByteE2E ChannelE2E ChannelSuccess.
 From FlacE2EMeta Require Import MetaBridge FinishedBlocks.
 From FlacE2EUpd Require Import RealCodec CodecView UpdateE2E WrittenEdited WrittenEditedFronts WrittenEditedRead.
 Open Scope N_scope.
@@ -162,3 +162,37 @@ Theorem C10_byte_written_edited_then_read : forall (u : list N -> bool),
 Proof. exact byte_written_edited_then_read. Qed.
 
 Print Assumptions C10_byte_written_edited_then_read.
+
+(* ... and through the channel pair: FlacChannelWriter (any list of well-formed write arguments), any edits,
+   FlacChannelReader model — every channel delivered exactly once, in order, in well-shaped buffers *)
+Theorem C10_channel_written_edited_then_read : forall (u : list N -> bool),
+  (forall s, Forall (fun b => b < 128) s -> u s = true) ->
+  forall o L md5, (forall l, length (md5 l) = 16%nat) -> (forall l, Forall (fun b => b < 256) (md5 l)) ->
+  forall p rate bps ch, rate < 2 ^ 20 -> 1 <= bps -> bps <= 32 -> 1 <= ch -> ch <= 8 ->
+  forall wo total w (chunks : list (list (list Z))) e rp,
+  options_wf wo -> Forall plain (o_metadata wo) -> seektables (o_metadata wo) = 0%nat ->
+  channel_new p [] wo rate bps ch total = Ok w ->
+  Forall (chunk_ok (N.to_nat ch)) chunks ->
+  let all := cconcat (N.to_nat ch) chunks in
+  forallb (FlacCodec.Wf.fits bps) (concat all) = true ->
+  let m := length (hd [] all) in
+  (1 <= m)%nat -> ch * N.of_nat m < 2 ^ 36 ->
+  match total with Some T => T = N.of_nat m | None => True end ->
+  exists f blocks,
+    channel_run (FlacE2E.E2E.encB o L rate bps) md5 p w chunks = Ok f /\
+    (forall edits fn rs,
+      Forall (typed_edit u) edits -> Forall (U.keeps_streaminfo FlacMeta.Blocks.block) edits ->
+      U.run_edits FlacMeta.Blocks.block psize_r ser_r uclass_r (read_blocks_r u) edits (f_stream f) = (fn, rs) ->
+      FlacCodec.Stream.dec_stream fn =
+        Some (FlacE2E.Bridge.conv_si (f_si f), map FlacCodec.Stream.interleave_frame blocks, FlacCodec.Stream.EndEof)) /\
+    let F := FlacE2E.ReadBridge.file_of_blocks blocks ch bps (Some (FlacCodec.Enc_proofs.blocks_samples blocks)) e rp in
+    RS.valid_file F /\
+    forall c, (c < N.to_nat ch)%nat ->
+      RS.chan_pcm F c = nth c all [] /\
+      forall ops, RS.no_cseek ops -> Forall RS.cop_ok (snd (FlacReaders.Seek.chan_run F ops)) ->
+        let atr := map (RS.abs_c F c) (snd (FlacReaders.Seek.chan_run F ops)) in
+        Forall (RS.cur_ok (nth c all [])) atr /\ RS.chained 0 atr (RS.cpos (fst (FlacReaders.Seek.chan_run F ops))) /\
+        RS.exactly_once (nth c all []) atr /\ Forall (RS.chan_shape F) (snd (FlacReaders.Seek.chan_run F ops)).
+Proof. exact channel_written_edited_then_read. Qed.
+
+Print Assumptions C10_channel_written_edited_then_read.
